@@ -148,11 +148,27 @@ theorem mem_alloc_of_claim {s : St} {p : Page} {o : Owner} (h : ownOk s = true)
 
 /-! ### `pinOk` -/
 
+theorem durable_clause_iff {k : PinKind} {a b : Nat} :
+    (k != PinKind.durable || a == b) = true ↔ (k = .durable → a = b) := by
+  by_cases h : k = .durable <;> simp [h]
+
 theorem pin_iff {s : St} :
     pinOk s = true ↔
       (∀ π ∈ s.pins, ∀ p ∈ π.pages, p ∈ reachableFrom s π.id) ∧
-      (∀ p ∈ s.dsys, p ∈ sysReachableFrom s s.dur) := by
-  simp only [pinOk, Bool.and_eq_true, List.all_eq_true, List.contains_iff_mem]
+      (∀ p ∈ s.dsys, p ∈ sysReachableFrom s s.dur) ∧
+      (∀ π ∈ s.pins, π.kind = .durable → π.id = s.dur) ∧
+      (∀ π ∈ s.pins, π.id ≤ s.id) := by
+  simp only [pinOk, Bool.and_eq_true, List.all_eq_true, List.contains_iff_mem,
+    durable_clause_iff, decide_eq_true_eq, and_assoc]
+
+/-- no pin is from the future -/
+theorem pin_id_le' {s : St} {π : Pin} (hp : pinOk s = true) (hπ : π ∈ s.pins) : π.id ≤ s.id :=
+  (pin_iff.1 hp).2.2.2 π hπ
+
+/-- the durable pin is the snapshot of the last durable commit -/
+theorem durable_pin_id' {s : St} {π : Pin} (hp : pinOk s = true) (hπ : π ∈ s.pins)
+    (hk : π.kind = .durable) : π.id = s.dur :=
+  (pin_iff.1 hp).2.2.1 π hπ hk
 
 theorem pin_owner_cases {s : St} {π : Pin} {p : Page} (h : ownOk s = true) (hp : pinOk s = true)
     (hπ : π ∈ s.pins) (hpp : p ∈ π.pages) :
@@ -164,7 +180,7 @@ theorem pin_owner_cases {s : St} {π : Pin} {p : Page} (h : ownOk s = true) (hp 
 theorem dsys_owner_cases {s : St} {p : Page} (h : ownOk s = true) (hp : pinOk s = true)
     (hd : p ∈ s.dsys) :
     owner s p = some .sys ∨ ∃ t, s.dur < t ∧ owner s p = some (.sfreed t) := by
-  rcases claims_of_sysReachable ((pin_iff.1 hp).2 p hd) with hc | ⟨t, ht, hc⟩
+  rcases claims_of_sysReachable ((pin_iff.1 hp).2.1 p hd) with hc | ⟨t, ht, hc⟩
   · exact .inl ((owner_eq_some_iff h).2 hc)
   · exact .inr ⟨t, ht, (owner_eq_some_iff h).2 hc⟩
 
@@ -245,61 +261,134 @@ theorem PinnedMove.dataSide {s p o o'} (h : PinnedMove s p o o') (ho : o.isDataS
 theorem DsysMove.sysSide {s o o'} (h : DsysMove s o o') (ho : o.isSysSide) : o'.isSysSide := by
   cases h <;> first | exact ho | trivial
 
-theorem step_moveOk {s s' : St} {p : Page} (hs : stepOk false s s' = true) (hp : p ∈ s.alloc) :
-    moveOk s s' p = true := by
-  simp only [stepOk, Bool.false_eq_true, if_false, Bool.and_eq_true, List.all_eq_true] at hs
-  exact hs.1.1 p hp
+theorem stepOk_false_iff {s s' : St} :
+    stepOk false s s' = true ↔
+      (∀ p ∈ s.alloc, moveOk s s' p = true) ∧ s.id ≤ s'.id ∧ s.dur ≤ s'.dur ∧
+      (s.dur = s'.dur → s.dsys = s'.dsys) := by
+  have hd : (s.dur != s'.dur || s.dsys == s'.dsys) = true ↔ (s.dur = s'.dur → s.dsys = s'.dsys) := by
+    by_cases h : s.dur = s'.dur <;> simp [h]
+  simp only [stepOk, Bool.false_eq_true, if_false, Bool.and_eq_true, List.all_eq_true,
+    decide_eq_true_eq, hd, and_assoc]
 
-theorem step_id_le {s s' : St} (hs : stepOk false s s' = true) : s.id ≤ s'.id := by
-  simp only [stepOk, Bool.false_eq_true, if_false, Bool.and_eq_true, decide_eq_true_eq] at hs
-  exact hs.1.2
+theorem step_moveOk {s s' : St} {p : Page} (hs : stepOk false s s' = true) (hp : p ∈ s.alloc) :
+    moveOk s s' p = true := (stepOk_false_iff.1 hs).1 p hp
+
+theorem step_id_le {s s' : St} (hs : stepOk false s s' = true) : s.id ≤ s'.id :=
+  (stepOk_false_iff.1 hs).2.1
+
+theorem step_dsys_eq {s s' : St} (hs : stepOk false s s' = true) (hd : s.dur = s'.dur) :
+    s.dsys = s'.dsys := (stepOk_false_iff.1 hs).2.2.2 hd
 
 theorem step_dur_le {c : Bool} {s s' : St} (hs : stepOk c s s' = true) : s.dur ≤ s'.dur := by
-  cases c <;>
-    simp only [stepOk, Bool.false_eq_true, if_false, if_true, Bool.and_eq_true,
-      decide_eq_true_eq] at hs
-  · exact hs.2
-  · exact hs
+  cases c
+  · exact (stepOk_false_iff.1 hs).2.2.1
+  · simpa [stepOk] using hs
+
+theorem unpinned_iff {s s' : St} {p : Page} :
+    unpinned s s' p = true ↔
+      (∀ π ∈ surviving s s', p ∉ π.pages) ∧ (s.dur = s'.dur → p ∉ s.dsys) := by
+  have hd : (s.dur != s'.dur || !s.dsys.contains p) = true ↔ (s.dur = s'.dur → p ∉ s.dsys) := by
+    by_cases h : s.dur = s'.dur <;> simp [h]
+  have hc : ∀ π : Pin, (!π.pages.contains p) = true ↔ p ∉ π.pages := by
+    intro π; simp
+  simp only [unpinned, Bool.and_eq_true, List.all_eq_true, hd, hc]
+
+/-- All owner changes `moveOk` allows for a page that is owned in `s` and not `unpinned`. -/
+inductive LegalMove (s : St) (p : Page) : Owner → Owner → Prop
+  | same (o : Owner) : LegalMove s p o o
+  | dfreed (t : Nat) : s.id < t → LegalMove s p .data (.dfreed t)
+  | sfreed (t : Nat) : s.id < t → LegalMove s p .sys (.sfreed t)
+  | dlater (t t' : Nat) : t ≤ t' → LegalMove s p (.dfreed t) (.dfreed t')
+  | slater (t t' : Nat) : t ≤ t' → LegalMove s p (.sfreed t) (.sfreed t')
+  | restored (t : Nat) :
+    (∃ σ ∈ s.pins, σ.kind = .savepoint ∧ σ.id < t ∧ p ∈ σ.pages) →
+    LegalMove s p (.dfreed t) .data
+
+theorem moveOk_legal {s s' : St} {p : Page} {o : Owner} (hm : moveOk s s' p = true)
+    (ho : owner s p = some o) (hu : unpinned s s' p = false) :
+    ∃ o', owner s' p = some o' ∧ LegalMove s p o o' := by
+  unfold moveOk at hm
+  rw [ho] at hm
+  cases ho' : owner s' p with
+  | none => rw [ho'] at hm; simp [hu] at hm
+  | some o' =>
+    rw [ho'] at hm
+    refine ⟨o', rfl, ?_⟩
+    by_cases he : o = o'
+    · subst he; exact .same _
+    · cases o <;> cases o' <;>
+        simp_all <;>
+        first
+          | exact .dfreed _ hm
+          | exact .sfreed _ hm
+          | exact .dlater _ _ hm
+          | exact .slater _ _ hm
+          | (refine .restored _ ?_
+             obtain ⟨σ, h1, ⟨h2, h3⟩, h4⟩ := hm
+             exact ⟨σ, h1, h2, h3, h4⟩)
+
+theorem moveOk_of_legal {s s' : St} {p : Page} {o o' : Owner} (ho : owner s p = some o)
+    (ho' : owner s' p = some o') (hl : LegalMove s p o o') : moveOk s s' p = true := by
+  unfold moveOk
+  rw [ho, ho']
+  cases hl with
+  | same => simp
+  | dfreed t h => simpa using h
+  | sfreed t h => simpa using h
+  | dlater t t' h => by_cases he : t = t' <;> simp [he, h]
+  | slater t t' h => by_cases he : t = t' <;> simp [he, h]
+  | restored t h =>
+    obtain ⟨σ, h1, h2, h3, h4⟩ := h
+    simp only [reduceCtorEq, beq_iff_eq, if_false, Bool.or_eq_true, List.any_eq_true,
+      Bool.and_eq_true, decide_eq_true_eq, List.contains_iff_mem]
+    exact .inl ⟨σ, h1, ⟨h2, h3⟩, h4⟩
+
+/-- declarative reading of `moveOk` for an owned page that some surviving pin or the unchanged
+durable system tree still reaches -/
+theorem moveOk_iff_of_pinned {s s' : St} {p : Page} {o : Owner}
+    (ho : owner s p = some o) (hu : unpinned s s' p = false) :
+    moveOk s s' p = true ↔ ∃ o', owner s' p = some o' ∧ LegalMove s p o o' :=
+  ⟨fun hm => moveOk_legal hm ho hu, fun ⟨_, ho', hl⟩ => moveOk_of_legal ho ho' hl⟩
+
+/-- every accepted move is: the page was free, or nothing pins it, or it is a `LegalMove` -/
+theorem moveOk_cases {s s' : St} {p : Page} (hm : moveOk s s' p = true) :
+    owner s p = none ∨ unpinned s s' p = true ∨
+      ∃ o o', owner s p = some o ∧ owner s' p = some o' ∧ LegalMove s p o o' := by
+  cases ho : owner s p with
+  | none => exact .inl rfl
+  | some o =>
+    cases hu : unpinned s s' p with
+    | true => exact .inr (.inl rfl)
+    | false =>
+      obtain ⟨o', ho', hl⟩ := moveOk_legal hm ho hu
+      exact .inr (.inr ⟨o, o', rfl, ho', hl⟩)
 
 /-- `moveOk` for a page whose owner in `s` is data-side and which is not `unpinned` -/
 theorem moveOk_pinned {s s' : St} {p : Page} {o : Owner} (hm : moveOk s s' p = true)
     (ho : owner s p = some o) (hd : o.isDataSide) (hu : unpinned s s' p = false) :
     ∃ o', owner s' p = some o' ∧ PinnedMove s p o o' := by
-  unfold moveOk at hm
-  rw [ho] at hm
-  cases ho' : owner s' p with
-  | none => rw [ho'] at hm; simp [hu] at hm
-  | some o' =>
-    rw [ho'] at hm
-    refine ⟨o', rfl, ?_⟩
-    by_cases he : o = o'
-    · subst he; exact .same _
-    · cases o <;> cases o' <;>
-        simp_all [Owner.isDataSide] <;>
-        first
-          | exact .freed _ hm
-          | exact .later _ _ hm
-          | (refine .restored _ ?_
-             obtain ⟨σ, h1, ⟨h2, h3⟩, h4⟩ := hm
-             exact ⟨σ, h1, h2, h3, h4⟩)
+  obtain ⟨o', ho', hl⟩ := moveOk_legal hm ho hu
+  refine ⟨o', ho', ?_⟩
+  cases hl with
+  | same => exact .same _
+  | dfreed t h => exact .freed t h
+  | sfreed t h => cases hd
+  | dlater t t' h => exact .later t t' h
+  | slater t t' h => cases hd
+  | restored t h => exact .restored t h
 
 theorem moveOk_dsys {s s' : St} {p : Page} {o : Owner} (hm : moveOk s s' p = true)
     (ho : owner s p = some o) (hd : o.isSysSide) (hu : unpinned s s' p = false) :
     ∃ o', owner s' p = some o' ∧ DsysMove s o o' := by
-  unfold moveOk at hm
-  rw [ho] at hm
-  cases ho' : owner s' p with
-  | none => rw [ho'] at hm; simp [hu] at hm
-  | some o' =>
-    rw [ho'] at hm
-    refine ⟨o', rfl, ?_⟩
-    by_cases he : o = o'
-    · subst he; exact .same _
-    · cases o <;> cases o' <;>
-        simp_all [Owner.isSysSide] <;>
-        first
-          | exact .freed _ hm
-          | exact .later _ _ hm
+  obtain ⟨o', ho', hl⟩ := moveOk_legal hm ho hu
+  refine ⟨o', ho', ?_⟩
+  cases hl with
+  | same => exact .same _
+  | dfreed t h => cases hd
+  | sfreed t h => exact .freed t h
+  | dlater t t' h => cases hd
+  | slater t t' h => exact .later t t' h
+  | restored t h => cases hd
 
 /-- Core safety lemma: across a legal non-crash step a page reached by a surviving pin stays
 allocated, and its owner changes only by a `PinnedMove`; in particular it stays data-side. -/
@@ -308,8 +397,9 @@ theorem step_pinned {s s' : St} {π : Pin} {p : Page}
     (hs : stepOk false s s' = true) (hπ : π ∈ surviving s s') (hpp : p ∈ π.pages) :
     p ∈ s'.alloc ∧ ∃ o o', owner s p = some o ∧ owner s' p = some o' ∧
       (o = .data ∨ ∃ t, π.id < t ∧ o = .dfreed t) ∧ PinnedMove s p o o' ∧
-      (o' = .data ∨ ∃ t, o' = .dfreed t) := by
+      (o' = .data ∨ ∃ t, π.id < t ∧ o' = .dfreed t) := by
   have hπs := (mem_surviving.1 hπ).1
+  have hle := pin_id_le' hp hπs
   have hal := pin_mem_alloc h hp hπs hpp
   have hm := step_moveOk hs hal
   have hu := unpinned_false_of_pin hπ hpp
@@ -321,8 +411,29 @@ theorem step_pinned {s s' : St} {π : Pin} {p : Page}
   have hd : o.isDataSide := by
     rcases hx with rfl | ⟨t, _, rfl⟩ <;> trivial
   obtain ⟨o', ho', hmv⟩ := moveOk_pinned hm ho hd hu
-  exact ⟨mem_alloc_of_owner h' ho',
-    o, o', ho, ho', hx, hmv, Owner.isDataSide_iff.1 (hmv.dataSide hd)⟩
+  refine ⟨mem_alloc_of_owner h' ho', o, o', ho, ho', hx, hmv, ?_⟩
+  cases hmv with
+  | same => exact hx
+  | freed t ht => exact .inr ⟨t, by omega, rfl⟩
+  | later t t' ht =>
+    rcases hx with hx | ⟨t₀, h0, hx⟩
+    · cases hx
+    · cases hx; exact .inr ⟨t', by omega, rfl⟩
+  | restored t _ => exact .inl rfl
+
+/-- a page released by a legal non-crash step was reached by no surviving pin and, if the
+durable commit did not advance, was not in the durable system tree -/
+theorem released_unpinned {s s' : St} {p : Page} (h : ownOk s = true) (h' : ownOk s' = true)
+    (hs : stepOk false s s' = true) (hp : p ∈ s.alloc) (hp' : p ∉ s'.alloc) :
+    (∀ π ∈ surviving s s', p ∉ π.pages) ∧ (s.dur = s'.dur → p ∉ s.dsys) := by
+  have hm := step_moveOk hs hp
+  have hn' := (owner_eq_none_iff h').2 hp'
+  cases ho : owner s p with
+  | none => exact absurd hp ((owner_eq_none_iff h).1 ho)
+  | some o =>
+    unfold moveOk at hm
+    rw [ho, hn'] at hm
+    exact unpinned_iff.1 hm
 
 /-- the same for the durable system tree while the durable commit does not advance -/
 theorem step_dsys {s s' : St} {p : Page}
@@ -483,36 +594,35 @@ theorem dsys_trace {tr : List (Bool × St)} {d : Nat} {p : Page}
         ((hdur x hx).trans (hdur y hy').symm) (hd x hx)
     exact ⟨o, o', h1, h2, h3⟩
 
-/-- the clause missing from `stepOk`: the durable system tree changes only with `dur` -/
-def dsysStable (s s' : St) : Bool := s.dur != s'.dur || s.dsys == s'.dsys
-
-theorem dsys_const_of_stable {x0 : Bool × St} {tr : List (Bool × St)}
-    (hdur : ∀ x ∈ x0 :: tr, x.2.dur = x0.2.dur)
-    (hstab : Consec (fun x y => dsysStable x.2 y.2 = true) (x0 :: tr)) :
+theorem dsys_const {x0 : Bool × St} {tr : List (Bool × St)}
+    (hnc : ∀ x ∈ tr, x.1 = false)
+    (hdur : ∀ x ∈ tr, x.2.dur = x0.2.dur)
+    (hstep : Consec StepRel (x0 :: tr)) :
     ∀ x ∈ x0 :: tr, x.2.dsys = x0.2.dsys := by
   induction tr generalizing x0 with
   | nil => intro x hx; simp at hx; rw [hx]
   | cons y l ih =>
-    obtain ⟨h1, h2⟩ := consec_cons2.1 hstab
+    obtain ⟨h1, h2⟩ := consec_cons2.1 hstep
     have hy : y.2.dur = x0.2.dur := hdur y (by simp)
     have hds : x0.2.dsys = y.2.dsys := by
-      simpa [dsysStable, hy] using h1
+      unfold StepRel at h1
+      rw [hnc y (by simp)] at h1
+      exact step_dsys_eq h1 hy.symm
     intro x hx
     rcases List.mem_cons.1 hx with rfl | hx
     · rfl
     · rw [hds]
-      exact ih (fun z hz => (hdur z (List.mem_cons_of_mem _ hz)).trans hy.symm) h2 x hx
+      exact ih (fun z hz => hnc z (List.mem_cons_of_mem _ hz))
+        (fun z hz => (hdur z (List.mem_cons_of_mem _ hz)).trans hy.symm) h2 x hx
 
-/-- Trace-level safety of the durable system tree for a monitor that also checks `dsysStable`
-on every transition: every page of the durable system tree of the first state stays allocated
-and `sys`-side while `dur` does not change. -/
-theorem dsys_trace_of_stable {x0 : Bool × St} {tr : List (Bool × St)} {p : Page}
+/-- Trace-level safety of the durable system tree: every page of the durable system tree of
+the first state stays allocated and `sys`-side while `dur` does not change. -/
+theorem dsys_trace_full {x0 : Bool × St} {tr : List (Bool × St)} {p : Page}
     (hacc : accept (x0 :: tr) = true)
     (hnc : ∀ x ∈ tr, x.1 = false)
     (hdur : ∀ x ∈ tr, x.2.dur = x0.2.dur)
-    (hstab : ∀ pre x y post, x0 :: tr = pre ++ x :: y :: post → dsysStable x.2 y.2 = true)
     (hp : p ∈ x0.2.dsys) :
-    (∀ x ∈ x0 :: tr, p ∈ x.2.alloc ∧
+    (∀ x ∈ x0 :: tr, p ∈ x.2.alloc ∧ p ∈ x.2.dsys ∧
       (owner x.2 p = some .sys ∨ ∃ t, x0.2.dur < t ∧ owner x.2 p = some (.sfreed t))) ∧
     (∀ pre x y post, x0 :: tr = pre ++ x :: y :: post →
       ∃ o o', owner x.2 p = some o ∧ owner y.2 p = some o' ∧ DsysMove x.2 o o') := by
@@ -521,7 +631,91 @@ theorem dsys_trace_of_stable {x0 : Bool × St} {tr : List (Bool × St)} {p : Pag
     rcases List.mem_cons.1 hx with rfl | hx
     · rfl
     · exact hdur x hx
-  have hc := dsys_const_of_stable hdur' hstab
-  exact dsys_trace hacc hnc hdur' (fun x hx => by rw [hc x hx]; exact hp)
+  have hc := dsys_const hnc hdur (accept_iff.1 hacc).2
+  have hd : ∀ x ∈ x0 :: tr, p ∈ x.2.dsys := fun x hx => by rw [hc x hx]; exact hp
+  obtain ⟨h1, h2⟩ := dsys_trace hacc hnc hdur' hd
+  exact ⟨fun x hx => ⟨(h1 x hx).1, hd x hx, (h1 x hx).2⟩, h2⟩
+
+/-! ### abandoned transactions (`abortOk`) -/
+
+theorem sameSet_iff {a b : List Page} : sameSet a b = true ↔ ∀ p, p ∈ a ↔ p ∈ b := by
+  simp only [sameSet, Bool.and_eq_true, List.all_eq_true, List.contains_iff_mem]
+  exact ⟨fun ⟨h1, h2⟩ p => ⟨h1 p, h2 p⟩, fun h => ⟨fun p => (h p).1, fun p => (h p).2⟩⟩
+
+theorem records_half {a b : List (Nat × List Page)}
+    (h : a.all (fun r => b.any (fun r' => r.1 == r'.1 && sameSet r.2 r'.2)) = true)
+    {Q : Nat → Prop} {p : Page} (hx : ∃ r ∈ a, Q r.1 ∧ p ∈ r.2) : ∃ r ∈ b, Q r.1 ∧ p ∈ r.2 := by
+  obtain ⟨r, hr, hq, hp⟩ := hx
+  simp only [List.all_eq_true, List.any_eq_true, Bool.and_eq_true, beq_iff_eq] at h
+  obtain ⟨r', hr', he, hs⟩ := h r hr
+  exact ⟨r', hr', he ▸ hq, (sameSet_iff.1 hs p).1 hp⟩
+
+theorem sameRecords_iff_mem {a b : List (Nat × List Page)} (h : sameRecords a b = true)
+    {Q : Nat → Prop} {p : Page} :
+    (∃ r ∈ a, Q r.1 ∧ p ∈ r.2) ↔ (∃ r ∈ b, Q r.1 ∧ p ∈ r.2) := by
+  simp only [sameRecords, Bool.and_eq_true] at h
+  exact ⟨records_half h.1, records_half h.2⟩
+
+theorem abortOk_iff {s s' : St} :
+    abortOk s s' = true ↔
+      sameSet s.alloc s'.alloc = true ∧ sameSet s.data s'.data = true ∧
+      sameSet s.sys s'.sys = true ∧ sameRecords s.dfreed s'.dfreed = true ∧
+      sameRecords s.sfreed s'.sfreed = true ∧ s.id = s'.id ∧ s.dur = s'.dur ∧
+      sameSet s.dsys s'.dsys = true := by
+  simp only [abortOk, Bool.and_eq_true, beq_iff_eq, and_assoc]
+
+theorem abort_claims {s s' : St} (h : abortOk s s' = true) {p : Page} {o : Owner} :
+    (p, o) ∈ claims s ↔ (p, o) ∈ claims s' := by
+  obtain ⟨_, hd, hs, hdf, hsf, _⟩ := abortOk_iff.1 h
+  rw [mem_claims, mem_claims, sameSet_iff.1 hd p, sameSet_iff.1 hs p,
+    sameRecords_iff_mem hdf (Q := fun t => o = .dfreed t),
+    sameRecords_iff_mem hsf (Q := fun t => o = .sfreed t)]
+
+theorem abort_owner {s s' : St} (h : ownOk s = true) (h' : ownOk s' = true)
+    (ha : abortOk s s' = true) (p : Page) : owner s' p = owner s p := by
+  cases ho : owner s p with
+  | some o => exact (owner_eq_some_iff h').2 ((abort_claims ha).1 ((owner_eq_some_iff h).1 ho))
+  | none =>
+    have hal := (abortOk_iff.1 ha).1
+    rw [owner_eq_none_iff h'] 
+    rw [owner_eq_none_iff h] at ho
+    exact fun hp => ho ((sameSet_iff.1 hal p).2 hp)
+
+theorem abort_no_trace' {s s' : St} (h : ownOk s = true) (h' : ownOk s' = true)
+    (ha : abortOk s s' = true) :
+    (∀ p, p ∈ s'.alloc ↔ p ∈ s.alloc) ∧ (∀ p, owner s' p = owner s p) ∧
+      s'.id = s.id ∧ s'.dur = s.dur := by
+  obtain ⟨hal, _, _, _, _, hid, hdur, _⟩ := abortOk_iff.1 ha
+  exact ⟨fun p => (sameSet_iff.1 hal p).symm, abort_owner h h' ha, hid.symm, hdur.symm⟩
+
+theorem abort_reachable {s s' : St} (ha : abortOk s s' = true) {id : Nat} {p : Page} :
+    p ∈ reachableFrom s id ↔ p ∈ reachableFrom s' id := by
+  obtain ⟨_, hd, _, hdf, _⟩ := abortOk_iff.1 ha
+  rw [mem_reachableFrom, mem_reachableFrom, sameSet_iff.1 hd p,
+    sameRecords_iff_mem hdf (Q := fun t => id < t)]
+
+theorem abort_sysReachable {s s' : St} (ha : abortOk s s' = true) {id : Nat} {p : Page} :
+    p ∈ sysReachableFrom s id ↔ p ∈ sysReachableFrom s' id := by
+  obtain ⟨_, _, hs, _, hsf, _⟩ := abortOk_iff.1 ha
+  rw [mem_sysReachableFrom, mem_sysReachableFrom, sameSet_iff.1 hs p,
+    sameRecords_iff_mem hsf (Q := fun t => id < t)]
+
+theorem abort_pinOk {s s' : St} (ha : abortOk s s' = true) (hp : pinOk s = true)
+    (hpins : s'.pins = s.pins) : pinOk s' = true := by
+  obtain ⟨_, _, _, _, _, hid, hdur, hds⟩ := abortOk_iff.1 ha
+  obtain ⟨h1, h2, h3, h4⟩ := pin_iff.1 hp
+  rw [pin_iff, hpins, ← hid, ← hdur]
+  refine ⟨fun π hπ p hpp => (abort_reachable ha).1 (h1 π hπ p hpp),
+    fun p hpd => (abort_sysReachable ha).1 (h2 p ((sameSet_iff.1 hds p).2 hpd)), h3, h4⟩
+
+theorem abort_moves {s s' : St} (h : ownOk s = true) (h' : ownOk s' = true)
+    (ha : abortOk s s' = true) : s.alloc.all (moveOk s s') = true := by
+  rw [List.all_eq_true]
+  intro p _
+  unfold moveOk
+  rw [abort_owner h h' ha p]
+  cases owner s p with
+  | none => rfl
+  | some o => simp
 
 end Redb.Life
